@@ -127,17 +127,18 @@ def judge(ctx, case, truth, res, model):
 
 
 def multi_base_matrix():
-    """Enumerated: two bases x {provides with a precondition, provides without, does not provide} each, in both
-    orders, x the sub-class {overrides without / with own preconditions, does not override} x member kind x sync/async,
-    each with a postcondition at every level. All truth assignments are explored by the caller."""
+    """Enumerated: two bases x {provides with a precondition, provides without, provides without any contract, does not
+    provide} each, in both orders, x the sub-class {overrides without / with own preconditions / without any contract,
+    does not override} x member kind x sync/async, a postcondition at every contracted level. All truth assignments are
+    explored by the caller."""
     from vf.progmodel import gen as G
 
     kinds = [("method", False), ("method", True), ("static", False), ("class", False), ("getter", False),
              ("setter", False), ("deleter", False)]
     for kind, is_async in kinds:
-        for b1 in ("pre", "nopre", "absent"):
-            for b2 in ("pre", "nopre", "absent"):
-                for child in ("override", "override+pre", "inherit"):
+        for b1 in ("pre", "nopre", "bare", "absent"):
+            for b2 in ("pre", "nopre", "bare", "absent"):
+                for child in ("override", "override+pre", "override-bare", "inherit"):
                     ids = G.Ids()
                     name = "p" if kind in ("getter", "setter", "deleter") else "m"
 
@@ -146,7 +147,7 @@ def multi_base_matrix():
                             return []
                         params, defaults = G.params_of(kind)
                         decos = []
-                        if post:
+                        if post and mode != "bare":  # "bare": the member is provided without any contract at all
                             decos.append({"t": "ensure", "cid": ids.cid(), "args": [], "lam": False, "err": {"form": "default"}})
                         if mode in ("pre", "override+pre"):
                             decos.append({"t": "require", "cid": ids.cid(), "args": [], "lam": False, "err": {"form": "default"}})
@@ -162,7 +163,8 @@ def multi_base_matrix():
                         {"name": "K0", "bases": [], "root": "DBC", "shape": "plain", "invs": [], "members": members(b1)},
                         {"name": "K1", "bases": [], "root": "DBC", "shape": "plain", "invs": [], "members": members(b2)},
                         {"name": "K2", "bases": [0, 1], "root": "DBC", "shape": "plain", "invs": [],
-                         "members": members({"override": "nopre", "override+pre": "pre", "inherit": "absent"}[child])},
+                         "members": members({"override": "nopre", "override+pre": "pre", "override-bare": "bare",
+                                             "inherit": "absent"}[child])},
                     ]
                     prog = {"funcs": [], "classes": classes}
                     ops = []
@@ -252,7 +254,7 @@ def run(ctx, tier, seed, shard, nshards):
         structural(ctx)
         for case in multi_base_matrix():
             D.run_one(ctx, case, judge, exclude=exclude, nontrivial=nontrivial)
-        ctx.count("multi_base_matrix_cells", 7 * 27)
+        ctx.count("multi_base_matrix_cells", 7 * 64)
         for case in gap_matrix():
             D.run_one(ctx, case, judge, exclude=exclude, nontrivial=nontrivial)
         ctx.count("gap_matrix_cells", 7 * 12)
